@@ -264,13 +264,14 @@ func (m *tsManager) GetTargetMsgChan(replicateID string, channelName string) <-c
 
 func (m *tsManager) SendTargetMsg(channelName string, msg *api.ReplicateMsg) {
 	m.channelTSLocks.RLock(channelName)
-	defer m.channelTSLocks.RUnlock(channelName)
-
 	ts, ok := m.channelTS2.Get(channelName)
+	m.channelTSLocks.RUnlock(channelName)
 	if !ok {
 		log.Panic("send target msg failed", zap.String("channelName", channelName))
 		return
 	}
+	// do not hold the channel key lock while blocked on a full buffer: a pending writer (CollectTS of another
+	// stream) would then block the consumer's GetTargetMsgChan behind it and nobody could ever drain the buffer
 	ts.targetMsgChan <- msg
 }
 
